@@ -64,7 +64,7 @@ from bounded import _calendar_spec as cal
 assert os.path.abspath(qstrader.__file__).startswith(
     os.path.abspath(os.environ.get("QSTRADER_ROOT", "/repo"))
 ), "qstrader resolves to %s" % qstrader.__file__
-qstrader.settings.PRINT_EVENTS = False
+qstrader.settings.PRINT_EVENTS = os.environ.get("PYVC_AMBIENT") == "1"
 
 PROPERTY = "C13"
 
@@ -80,7 +80,7 @@ CLAUSES = (
     "tz-utc",
 )
 
-START_TODS = ((0, 0), (9, 15), (14, 30), (15, 45), (21, 1))
+START_TODS = ((0, 0), (9, 15), (14, 30), (15, 45), (21, 1), (9, 30, 45))
 BAH_TODS = ((0, 0), (9, 15), (14, 30), (21, 0), (23, 59))
 WEEKDAYS = ("MON", "TUE", "WED", "THU", "FRI")
 UNKNOWN_WEEKDAYS = ("SAT", "SUN", "sat", "Sun", "", "MONDAY", "friday", "XYZ", "M", "MO", "TUES", "WEEKDAY", "1")
@@ -91,10 +91,10 @@ MAX_FAILURES = 25
 BOUND = (
     "Start date: every date 2015-12-15 .. 2032-03-15 (5935 dates: every weekday alignment, every month end incl. "
     "those on Saturdays/Sundays, every year end, February of the leap years 2016/2020/2024/2028).  Ranges per "
-    "start date d, start time of day t in {00:00, 09:15, 14:30, 15:45, 21:01} UTC (the last two lie after the pre-market / default rebalance time of the start date itself): (a) end = d + L days at 23:59; (b) end = d + "
+    "start date d, start time of day t in {00:00, 09:15, 14:30, 15:45, 21:01, 09:30:45} UTC (the last two lie after the pre-market / default rebalance time of the start date itself): (a) end = d + L days at 23:59; (b) end = d + "
     "L days at t itself (edge of 'end time of day not before the start's'; L=0 is end == start).  Short: every t x "
     "(a) L in {0..10} and (b) L in {0,1,3,7}.  Mid: (a) L in {31,33,70} and (b) L=31 with ONE t per start date "
-    "(t rotates with the date ordinal mod 5).  For each short/mid range 14 constructions: WeeklyRebalance for each "
+    "(t rotates with the date ordinal mod 6).  For each short/mid range 14 constructions: WeeklyRebalance for each "
     "of MON..FRI (letter case rotating over UPPER/lower/Title/mIXED) x pre_market in {False, True}; DailyRebalance "
     "x {False, True}; EndOfMonthRebalance x {False, True}.  Long: (a) L=366 on even date ordinals, L=800 on odd "
     "ones, one t (rotating), 8 constructions: MON..FRI and daily with one pre_market value each (rotating with "
